@@ -155,6 +155,17 @@ impl Obj {
         self.s.push_str(v);
         self
     }
+    /// Appends pre-rendered `"key":value,...` text.
+    pub fn fields(mut self, text: &str) -> Self {
+        if !text.is_empty() {
+            if !self.first {
+                self.s.push(',');
+            }
+            self.first = false;
+            self.s.push_str(text);
+        }
+        self
+    }
     pub fn bytes(mut self, k: &str, v: &[u8]) -> Self {
         self.key(k);
         self.s.push_str(&bytes_json(v));
